@@ -175,14 +175,17 @@ def gxx_programs(ctx, progs, tag):
     exe = os.path.join(ctx.tmp, "prog_%s" % tag)
     remaining, bad = list(progs), {}
     for attempt in range(40):
-        lines = ["#include <cstdio>"]
+        lines = ["#include <cstdio>", "#include <cstdlib>", "#include <csignal>", "#include <unistd.h>",
+                 "static volatile int cur = -1;",
+                 "static void hang(int) { printf(\"%d HANG\\n\", cur); fflush(stdout); _exit(3); }"]
         starts = []
         for (i, text) in remaining:
             starts.append(len(lines) + 1)
             lines += ("namespace n%d {\n%s\n}" % (i, text.strip())).split("\n")
-        lines.append("int main() {")
-        for (i, _) in remaining:
-            lines.append("{ int a = 5, b = 3; n%d::k(a, b); printf(\"%d %%d %%d\\n\", a, b); }" % (i, i))
+        lines.append("int main(int argc, char **argv) { int start = argc > 1 ? atoi(argv[1]) : 0; signal(SIGALRM, hang);")
+        for pos, (i, _) in enumerate(remaining):
+            lines.append("if (%d >= start) { cur = %d; alarm(10); int a = 5, b = 3; n%d::k(a, b); alarm(0); printf(\"%d %%d %%d\\n\", a, b); fflush(stdout); }"
+                         % (pos, i, i, i))
         lines.append("return 0; }")
         open(src, "w").write("\n".join(lines) + "\n")
         rc, out = vlib.sh(["g++", "-std=c++17", "-w", "-O0", "-fwrapv", "-o", exe, src], timeout=900)
@@ -201,13 +204,26 @@ def gxx_programs(ctx, progs, tag):
         remaining = [e for k, e in enumerate(remaining) if k not in hit]
     else:
         raise Broken("g++ kept failing on the program file")
-    rc, out = vlib.sh(["timeout", "60", exe], timeout=120)
-    if rc != 0:
-        raise Broken("program file crashed or hung (rc=%d): %s" % (rc, out[-1000:]))
     vals = {}
-    for ln in out.splitlines():
-        q = ln.split()
-        vals[int(q[0])] = [int(v) for v in q[1:]]
+    start = 0
+    pos_of = {i: pos for pos, (i, _) in enumerate(remaining)}
+    for attempt in range(200):
+        rc, out = vlib.sh([exe, str(start)], timeout=3000)
+        hung = None
+        for ln in out.splitlines():
+            q = ln.split()
+            if len(q) == 2 and q[1] == "HANG":
+                hung = int(q[0])
+                vals[hung] = "HANG"
+            elif len(q) == 3:
+                vals[int(q[0])] = [int(v) for v in q[1:]]
+        if rc == 0:
+            break
+        if hung is None:
+            raise Broken("program file crashed (rc=%d): %s" % (rc, out[-1000:]))
+        start = pos_of[hung] + 1
+    else:
+        raise Broken("too many hanging programs")
     return vals, bad
 
 
